@@ -86,6 +86,12 @@ fn in_text_order(text: &str, comments: &[String], kinds: &[&'static str]) -> (Ve
 }
 
 pub fn render(c: &Case, with_comments: bool) -> Rendered {
+    render_with(c, with_comments, false)
+}
+
+/// `speculative`: also try comment positions the pinned grammar rejects (C09 discards the program
+/// when the parser under test refuses it)
+pub fn render_with(c: &Case, with_comments: bool, speculative: bool) -> Rendered {
     if let Some(t) = &c.text {
         let comments = lex_comments(t);
         let n = comments.len();
@@ -99,6 +105,7 @@ pub fn render(c: &Case, with_comments: bool) -> Rendered {
     let mode = if c.layout.first().map(|t| t % 3 == 0).unwrap_or(false) { Mode::Full } else { Mode::Minimal };
     let mut pr = Printer::new(mode, Tape::new(&c.layout));
     pr.comments = with_comments;
+    pr.speculative_comments = speculative;
     pr.redundancy = true;
     let mut text = pr.program(&c.prog);
     if c.typed {
